@@ -29,7 +29,7 @@
 (***************************************************************************)
 EXTENDS MatrixBase
 
-CONSTANTS Versions, Family      \* "single" | "core" | "pair"
+CONSTANTS Versions, Family      \* "single" | "core" | "pair" | "create"
 
 MaxFieldLen == 255
 MaxEventLen == 65536
@@ -94,13 +94,20 @@ CoreShapes(f) == LET fr == Frame(f)  k == (MaxFieldLen - fr) \div 2 IN
                  {[cps |-> c, nwide |-> 0, width |-> 1] : c \in {255, 256}}
                  \cup {[cps |-> fr + k + d, nwide |-> k + d, width |-> 2] : d \in {0, 1}}
 CoreSingles == UNION {{[size |-> 0, fields |-> [AllNatural EXCEPT ![f] = sh]] : sh \in CoreShapes(f)} : f \in Fields}
+\* room versions with domainless room IDs tolerate a create event that still carries a room_id member (the
+\* room ID proper is derived from the event ID); the member is a room ID of the event like any other, so the
+\* sentence applies to it.  EventBuilder refuses to build such an event: receipt and CheckFields only.
+CreateWithRoomID == {[size |-> 0, fields |-> [AllNatural EXCEPT !["room_id"] = sh]] : sh \in Shapes("room_id")}
 Scenarios == CASE Family = "single" -> Singles \cup Sizes
+               [] Family = "create" -> CreateWithRoomID
                [] Family = "core" -> CoreSingles \cup Sizes
                [] Family = "pair" -> Pairs
 
 Init == /\ phase = "scenario" /\ out = "none"
         /\ \E v \in Versions, p \in Paths, s0 \in Scenarios : \E h \in HashesOf(p) :
-             sc = [ver |-> v, path |-> p, hash |-> h, size |-> s0.size, sizeof |-> SizeOf(h, s0.size), fields |-> s0.fields]
+             /\ (Family = "create" => DomainlessRoomIDs(v) /\ p # "build")
+             /\ sc = [ver |-> v, path |-> p, hash |-> h, size |-> s0.size, sizeof |-> SizeOf(h, s0.size), fields |-> s0.fields,
+                      create |-> Family = "create"]
 
 \* --- the rule ----------------------------------------------------------------
 Hard(s) == s.size > MaxEventLen \/ \E f \in Fields : CpsOf(s.fields[f]) > MaxFieldLen
